@@ -85,6 +85,7 @@ func writeVNCImage(dir string) {
 // prototypes returns well-formed client dialogues (lists of messages) for a service.
 func prototypes(s *svcSpec, r *Rng) [][][]byte {
 	var out [][][]byte
+	udpMaxReqV = 1 << 30 // generator knob: never inherited from whatever was generated before in this process
 	if p := protoTable[s.Key]; p != nil {
 		for k := 0; k < 2; k++ {
 			n := r.Range(1, 6)
